@@ -545,6 +545,12 @@ func (s *muxerSegmenter) fmp4WriteSample(
 		return nil
 	}
 
+	// a track can start with a random access sample only
+	// (the first one may have been rejected because of its negative BaseTime).
+	if track.fmp4NextSample == nil && !randomAccess {
+		return nil
+	}
+
 	// put samples into a queue in order to compute the sample duration
 	sample, track.fmp4NextSample = track.fmp4NextSample, sample
 	if sample == nil {
